@@ -23,7 +23,7 @@ PROPS['C19'] = dict(
                  'master volume: TL rewrite inside the call is required for key-down notes; notes held only by the pedal are three-valued'],
     stages=[
         dict(name='sweep', variant='asan', harness='c19_sysex.cpp', quick=4096, thorough=32768, budget=60),
-        dict(name='memcheck', variant='plain-d', harness='c19_sysex.cpp', quick=512, thorough=8192, budget=1200, wall=3000, **{'as': 'sweep'},
+        dict(name='memcheck', variant='plain-d', harness='c19_sysex.cpp', quick=512, thorough=8192, budget=150, wall=2400, **{'as': 'sweep'},
              wrapper=['valgrind', '-q', '--error-exitcode=79', '--exit-on-first-error=yes', '--track-origins=no', '--leak-check=no']),
     ],
 )
